@@ -169,6 +169,7 @@ def enc_structure(ctx, prot, aad):
 def show(v):
     """the observation format (matches Desc.show_value / desc.rs show_value)"""
     k = v[0]
+    if k == 'raw': return show(dec_all(v[1]))
     def hexint(n): return ('-0x%x' % -n) if n < 0 else ('0x%x' % n)
     if k == 'i': return 'i' + hexint(v[1])
     if k == 'b': return 'h' + v[1].hex()
